@@ -225,7 +225,7 @@ def check_init_cache(ctx):
         u = q.top(e["value"], "unique")
         g = q.top(u.args[0], "getitem") if u is not None else None
         ok_u = g is not None and isinstance(g.args[1], Rat) and isinstance(ax, Rat) and g.args[1].equals(ax) and \
-            g.args[0].key() in ("$self.axis_cache", "call:dict()")
+            (g.args[0].key() in ("$self.axis_cache", "call:dict()") or g.args[0].key() == "new:dict(str:'self.axis_cache'())")
         ctx.ob("C11.2", site, ok_u, "slice values = unique(bucket values) of the same cache entry",
                loc=prog.loc(m, e["node"]), msg="axis_cache_unique is %s" % str(e["value"])[:160])
     kinds = set()
